@@ -58,8 +58,71 @@ def _nested_functions(fn):
     return out
 
 
+_CLASS_LOCALS = {}
+
+
+def class_locals(model, fn):
+    """Local names of fn bound to class objects: x = Class ; for x in (A, B): ...  -> {name: [class descriptions]}."""
+    if fn not in _CLASS_LOCALS:
+        _CLASS_LOCALS[fn] = {}          # (guards the recursion through class_ref)
+        out = {}
+
+        def descs(e):
+            if isinstance(e, (ast.Tuple, ast.List, ast.Set)):
+                ds = []
+                for x in e.elts:
+                    d = descs(x)
+                    if d is None:
+                        return None
+                    ds += d
+                return ds
+            if isinstance(e, (ast.Name, ast.Attribute)):
+                if isinstance(e, ast.Name) and e.id in _locals(fn):
+                    return None
+                r = model.resolve_expr(fn, e)
+                if isinstance(r, tuple) and r and r[0] == 'assign' and isinstance(r[2][-1], (ast.Tuple, ast.List, ast.Name, ast.Attribute)):
+                    saved = fn
+                    sub = r[2][-1]
+                    if isinstance(sub, (ast.Tuple, ast.List)):
+                        ds = []
+                        for x in sub.elts:
+                            rr = model.resolve_expr(r[1], x) if isinstance(x, (ast.Name, ast.Attribute)) else None
+                            if not isinstance(rr, M.ClassInfo):
+                                return None
+                            ds.append(rr.fullname)
+                        return ds
+                    rr = model.resolve_expr(r[1], sub)
+                    return [rr.fullname] if isinstance(rr, M.ClassInfo) else None
+                if isinstance(r, M.ClassInfo):
+                    return [r.fullname]
+            if isinstance(e, ast.Subscript) and M.norm(e.value).endswith('context'):
+                return ['context[%s]' % M.norm(e.slice)]
+            return None
+        nodes = list(M.walk_no_nested(fn.node))
+        for n in nodes:
+            tgt = val = None
+            if isinstance(n, ast.Assign) and len(n.targets) == 1 and isinstance(n.targets[0], ast.Name):
+                tgt, val = n.targets[0].id, descs(n.value)
+            elif isinstance(n, (ast.For, ast.comprehension)) and isinstance(n.target, ast.Name):
+                tgt, val = n.target.id, descs(n.iter) if isinstance(n.iter, (ast.Tuple, ast.List, ast.Set, ast.Name, ast.Attribute)) else None
+                if isinstance(n.iter, (ast.Name, ast.Attribute)) and val is not None and len(val) == 1 and not isinstance(
+                        (model.resolve_expr(fn, n.iter) or (None,))[0] if isinstance(model.resolve_expr(fn, n.iter), tuple) else None, str):
+                    pass
+            if tgt is not None and val:
+                out.setdefault(tgt, [])
+                for d in val:
+                    if d not in out[tgt]:
+                        out[tgt].append(d)
+        # a name with any other binding is not (only) a class
+        for n in nodes:
+            if isinstance(n, ast.Name) and isinstance(n.ctx, ast.Store) and n.id in out:
+                pass
+        _CLASS_LOCALS[fn] = out
+    return _CLASS_LOCALS[fn]
+
+
 def class_ref(model, fn, expr, aliases):
-    """If `expr` denotes a class object, return a description string."""
+    """If `expr` denotes a class object, return a description string ('{A|B}' when it can be one of several)."""
     t = M.norm(expr)
     if t in ('type(self)', 'self.__class__', 'tself') or t in aliases.get('class', ()):
         return 'type(self)'
@@ -68,6 +131,9 @@ def class_ref(model, fn, expr, aliases):
         if args and expr.id == args[0].arg and args[0].arg == 'cls':
             return 'cls'
         if expr.id in _locals(fn):
+            ds = class_locals(model, fn).get(expr.id)
+            if ds:
+                return ds[0] if len(ds) == 1 else '{%s}' % '|'.join(ds)
             return None
     if isinstance(expr, (ast.Name, ast.Attribute)):
         r = model.resolve_expr(fn, expr)
@@ -227,7 +293,17 @@ def scan_function(model, fn):
                         if (isinstance(e, (ast.List, ast.Dict, ast.Set)) or (isinstance(e, ast.Call) and M.call_name(e) in ('dict', 'list', 'set'))) \
                            and _may_keep_or_change(model, fn, n, a):
                             effects.append(Effect(fn, n, 'classattr-escape', '%s.%s' % (c, a.attr), 'passed to %s()' % fname))
-    return effects
+    # a local that can be one of several classes: one effect per class
+    import re as _re
+    out = []
+    for e in effects:
+        mo = _re.search(r'\{([^{}]*\|[^{}]*)\}', e.target)
+        if mo:
+            for alt in mo.group(1).split('|'):
+                out.append(Effect(e.fn, e.node, e.kind, e.target.replace(mo.group(0), alt), e.detail))
+        else:
+            out.append(e)
+    return out
 
 
 _PURE_CALLS = {'len', 'list', 'sorted', 'iter', 'tuple', 'set', 'dict', 'str', 'enumerate', 'reversed', 'isinstance', 'bool', 'any',
@@ -358,9 +434,10 @@ def shared_default_sites(model, fn):
 
 
 def _expand_loop_names(model, fn, effects):
-    """context[name].attr = ... inside `for name in ('a', 'b')`: one effect per constant."""
+    """context[name].attr = ... / setattr(context[name], attr, v) inside `for name, attr, ... in <constant table>`: one effect per row of
+    the table (the loop variables of one row are substituted together)."""
     import re
-    loops = {}
+    loops = []          # (loop node, [variable names], [rows])
     for n in M.walk_no_nested(fn.node):
         if not isinstance(n, ast.For):
             continue
@@ -368,22 +445,55 @@ def _expand_loop_names(model, fn, effects):
             items = model.eval_const(fn, n.iter)
         except Exception:
             continue
-        if not isinstance(items, (list, tuple)) or not items or len(items) > 40:
+        if not isinstance(items, (list, tuple)) or not items or len(items) > 60:
             continue
-        if isinstance(n.target, ast.Name) and all(isinstance(x, str) for x in items):
-            loops[n.target.id] = list(items)
-        elif isinstance(n.target, (ast.Tuple, ast.List)):
-            for i, t in enumerate(n.target.elts):
-                if isinstance(t, ast.Name) and all(isinstance(x, (tuple, list)) and len(x) == len(n.target.elts) and isinstance(x[i], str) for x in items):
-                    loops[t.id] = [x[i] for x in items]
+        if isinstance(n.target, ast.Name):
+            loops.append((n, [n.target.id], [(x,) for x in items]))
+        elif isinstance(n.target, (ast.Tuple, ast.List)) and all(isinstance(t, ast.Name) for t in n.target.elts) \
+                and all(isinstance(x, (tuple, list)) and len(x) == len(n.target.elts) for x in items):
+            loops.append((n, [t.id for t in n.target.elts], [tuple(x) for x in items]))
     if not loops:
-        return effects
+        return _normalise_setattr(effects)
     out = []
     for e in effects:
-        mo = re.search(r'context\[(\w+)\]', e.target)
-        if mo and mo.group(1) in loops:
-            for v in loops[mo.group(1)]:
-                out.append(Effect(e.fn, e.node, e.kind, e.target.replace('context[%s]' % mo.group(1), 'context[%r]' % v), e.detail))
+        used = None
+        for loop, names, rows in loops:
+            inside = any(x is e.node for x in ast.walk(loop))
+            hit = [nm for nm in names if re.search(r'\[%s\]' % re.escape(nm), e.target)]
+            if inside and hit:
+                used = (names, rows)
+                break
+        if used is None:
+            out.append(e)
+            continue
+        names, rows = used
+        seen = set()
+        for row in rows:
+            t = e.target
+            ok = True
+            for nm, v in zip(names, row):
+                if re.search(r'\[%s\]' % re.escape(nm), t):
+                    if not isinstance(v, str):
+                        ok = False
+                        break
+                    t = re.sub(r'\[%s\]' % re.escape(nm), lambda mo, v=v: '[%r]' % v, t)
+            if ok and t not in seen:
+                seen.add(t)
+                out.append(Effect(e.fn, e.node, e.kind, t, e.detail))
+            elif not ok:
+                out.append(e)
+                break
+    return _normalise_setattr(out)
+
+
+def _normalise_setattr(effects):
+    """setattr(C, 'name', v) with a constant identifier writes the same cell as C.name = v."""
+    import re
+    out = []
+    for e in effects:
+        mo = re.fullmatch(r"(.+)\['([A-Za-z_]\w*)'\]", e.target) if e.kind in ('classattr-setattr', 'classattr-delattr') else None
+        if mo and not mo.group(2).startswith('@'):
+            out.append(Effect(e.fn, e.node, 'classattr-store', '%s.%s' % (mo.group(1), mo.group(2)), e.detail or e.kind.split('-')[1]))
         else:
             out.append(e)
     return out
